@@ -809,6 +809,12 @@ func Run(sc *Scenario) *RunResult {
 	res.probe("switches", w.Stats.Switches)
 	res.probe("switches_in_flight", w.Stats.SwitchInCall)
 	res.probe("wg_wait_blocked", w.Stats.WGWaitBlocked)
+	res.probe("library_goroutines", w.Stats.ChildTasks)
+	res.probe("chan_blocked", w.Stats.ChanBlocked)
+	res.probe("selects", w.Stats.Selects)
+	res.probe("select_several_ready", w.Stats.SelectMultiReady)
+	res.probe("select_handover", w.Stats.SelectHandover)
+	res.probe("cond_waits", w.Stats.CondWaits)
 	res.probe("hangs", w.Stats.Hangs)
 	res.probe("deadlocks", w.Stats.Deadlocks)
 	return res
